@@ -122,7 +122,7 @@ def _ival(n, env, lets, depth=0):
             raise _NoEval("division by zero")
         return -(-a // b)
     leaf = env.get("__leaf__")
-    if leaf is not None and k in ("field", "mcall", "call", "index") and not (k == "call" and re.search(r"cmp::(min|max)$", n.get("fn") or "")) and not (k == "mcall" and n["m"] in ("min", "max", "saturating_sub", "wrapping_sub", "checked_sub", "checked_add", "checked_mul", "ok_or_else", "ok_or", "unwrap", "expect", "into", "try_into", "unwrap_or_default")):
+    if leaf is not None and k in ("field", "mcall", "call", "index") and not (k == "call" and re.search(r"cmp::(min|max)$", n.get("fn") or "")) and not (k == "mcall" and n["m"] in ("min", "max", "saturating_sub", "wrapping_sub", "checked_sub", "checked_add", "checked_mul", "ok_or_else", "ok_or", "unwrap", "expect", "into", "try_into", "unwrap_or_default", "map_or")):
         v = leaf(hirq.render(n))
         if v is not None:
             return v
@@ -206,6 +206,25 @@ def _ival(n, env, lets, depth=0):
     if k == "mcall" and n["m"] in ("min", "max") and len(n["args"]) == 1:
         a, b = _ival(n["recv"], env, lets, depth + 1), _ival(n["args"][0], env, lets, depth + 1)
         return min(a, b) if n["m"] == "min" else max(a, b)
+    if k == "mcall" and n["m"] == "map_or" and len(n["args"]) == 2 and hirq.strip(n["recv"]).get("k") == "mcall" and hirq.strip(n["recv"])["m"] in ("checked_sub", "checked_add", "checked_mul"):
+        # `a.checked_sub(b).map_or(d, |v| f(v))`: d on the failing path, f(a - b) otherwise
+        inner = hirq.strip(n["recv"])
+        a, b = _ival(inner["recv"], env, lets, depth + 1), _ival(inner["args"][0], env, lets, depth + 1)
+        v = {"checked_sub": a - b, "checked_add": a + b, "checked_mul": a * b}[inner["m"]]
+        tyf = env.get("__ty__")
+        nm = (tyf(hirq.strip(inner["recv"]).get("t")) or "") if tyf is not None else ""
+        bits = {"u8": 8, "u16": 16, "u32": 32, "u64": 64, "usize": 64}.get(nm, 64)
+        if v < 0 or v >= 1 << bits:
+            return _ival(n["args"][0], env, lets, depth + 1)
+        cl = hirq.strip(n["args"][1])
+        if cl.get("k") != "closure":
+            raise _NoEval("map_or with a non-closure")
+        pn = [b_ for p_ in cl.get("params", []) or [] for b_ in hirq.pat_binds(p_)]
+        if len(pn) != 1:
+            raise _NoEval("map_or closure arity")
+        env2 = dict(env)
+        env2[pn[0]] = v
+        return _ival(cl["body"], env2, lets, depth + 1)
     if k == "mcall" and n["m"] in ("saturating_sub", "wrapping_sub", "checked_sub") and len(n["args"]) == 1:
         a, b = _ival(n["recv"], env, lets, depth + 1), _ival(n["args"][0], env, lets, depth + 1)
         if n["m"] == "checked_sub" and a - b < 0:
